@@ -256,6 +256,12 @@ def check(ctx, run):
                 if op == "not" and (cur != ORIG or saved != 0 or counter != -1):
                     why = why or "after set_not_out_of_memory the current allocator is %s, the saved pointer %s, the countdown %s; expected the original allocator (%d), NULL and no countdown" % (cur, saved, counter, ORIG)
             run.ob("R4", "out-of-memory switches folded in sequence %s: the null allocator while switched on, the ORIGINAL allocator (saved once) restored and countdown cleared when switched off" % (list(ops),), so.site, not why, witness=[list(x) for x in tr_], what=why)
+        # a countdown that has not run out yet (nothing was switched, nothing is saved) is cancelled by switching off
+        for c0 in (1, 5):
+            tr_ = switch_sequence(("not",), counter0=c0)
+            ok = tr_[-1][3] == -1
+            run.ob("R4", "set_not_out_of_memory folded with a countdown of %d still pending and no allocator replaced: the countdown is cancelled" % c0, sn.site, ok, witness=[list(x) for x in tr_],
+                   what="" if ok else "the countdown stays at %s: a later undesignated allocation still fails" % (tr_[-1][3],))
     except Unknown as u:
         raise AnalysisBroken("C15.R4: the out-of-memory switches cannot be folded: %s" % u)
     sc = prog.fn("cpputest_malloc_set_out_of_memory_countdown")
